@@ -383,6 +383,9 @@ def method_mutates(cls, fdef, tree, seen=()) -> bool:
 
 class FnTranslator:
     def __init__(self, fdef: ast.FunctionDef, spec: dict, module_defs: dict, tree=None, emitted=None):
+        import py2lean_prepass                   # desugaring into the subset; the identity when nothing applies
+        self.prepass = {}
+        fdef = py2lean_prepass.run(fdef, getattr(fdef, '_module_tree', None), spec, self.prepass)
         self.f = fdef
         self.spec = spec
         self.module_defs = module_defs          # name -> ast.FunctionDef of module-level functions
@@ -2319,6 +2322,7 @@ def _find_function(tree: ast.Module, qualname: str):
         raise Unsupported(node, '%s is not a plain function' % qualname)
     if node.decorator_list:
         raise Unsupported(node, 'decorated function')
+    node._module_tree = tree                     # for the desugaring pre-pass (module constants, helpers)
     return node
 
 
@@ -2373,7 +2377,9 @@ def translate_source(src: str, specs: list, module_name: str, rel: str):
         try:
             fdef = _find_function(tree, spec['qualname'])
             info['lines'] = '%d-%d' % (fdef.lineno, fdef.end_lineno)
-            text = FnTranslator(fdef, spec, module_defs, tree, emitted).emit()
+            tr = FnTranslator(fdef, spec, module_defs, tree, emitted)
+            info.update(tr.prepass)              # which desugarings of py2lean_prepass were applied, if any
+            text = tr.emit()
             emitted.add(spec['lean_name'])
             cls = spec.get('cls')
             if cls is not None and cls['lean_name'] not in classes:
